@@ -3,6 +3,10 @@
 //! Usage: nsverif <mode> [args...]
 
 mod bump;
+mod frontend;
+mod lang;
+mod limits;
+mod pipeline;
 mod pool;
 mod strlib;
 
@@ -21,8 +25,12 @@ fn main() -> ExitCode {
             ExitCode::SUCCESS
         }
         "bump" => bump::run(&args[2], &args[3]),
+        "lang" => lang::run(&args[2..]),
+        "limits" => limits::run(&args[2..]),
+        "pipeline" => pipeline::run(&args[2..]),
         "pool" => pool::run(&args[2], &args[3]),
         "strlib" => strlib::run(&args[2], &args[3]),
+        "frontend" => frontend::run(&args[2..]),
         other => {
             eprintln!("unknown mode {other}");
             ExitCode::from(2)
